@@ -131,24 +131,59 @@ HARNESSES += [
 if os.environ.get('C08_ONLY_SC'):   # development aid: only the first two scenarios of every reuse harness
   for h in HARNESSES:
     if 'reuse' in h['name']: h['scenarios'] = h['scenarios'][:2]
+UNITS.update({
+  'rtm2_d': dict(wrapper='w_rtm.cpp', mode='lcs', unroll=1, cxxflags=RTM_CXX, threads=thr('vp_thr_rtm_d', 2)),
+  'rtm3_d': dict(wrapper='w_rtm.cpp', mode='lcs', unroll=1, cxxflags=RTM_CXX, threads=thr('vp_thr_rtm_d', 3)),
+  'rtmrw2_d': dict(wrapper='w_rtm.cpp', mode='lcs', unroll=1, cxxflags=RTM_CXX, threads=thr('vp_thr_rtmrw_d', 2)),
+  'rtmrw3_d': dict(wrapper='w_rtm.cpp', mode='lcs', unroll=1, cxxflags=RTM_CXX, threads=thr('vp_thr_rtmrw_d', 3)),
+})
+def TX(sc, *modes): return dict(sc, SPEC=1, **{'TX%d' % i: m for i, m in enumerate(modes)})
+HTM_DESC = ('HTM model "a transaction commits atomically or has no effect" (h_rtm_stubs.h): threads with TXt=1 may start a transaction at _xbegin (solver choice, '
+            'else an abort status), no context switch inside a transaction; speculation enabled; ')
+HTM_B = dict(B2, spin_unroll=1, htm='atomic-commit-or-no-effect; TXt = thread t may speculate')
+R4 = (0, 1, 4, 5)
+HARNESSES += [
+  dict(name='rtm_rw_mutex_htm_3t', unit='rtmrw3_d', harness='h_rw.c', defines={'LOCK': 5, 'NT': 3, 'ROUNDS': 3, 'DATA': 1}, timeout=1800,
+       scenarios=[TX(T(1, 1, 0), 0, 0, 1)],
+       scenarios_thorough=[TX(T(1, 1, 0), 0, 0, 1), TX(T(1, 1, 0), 1, 1, 1), TX(T(1, 0, 0), 0, 1, 1), TX(T(1, 1, 4), 0, 0, 1), TX(T(1, 5, 0), 0, 1, 1), TX(T(1, 1, 1), 0, 0, 1), TX(T(1, 0, 1), 1, 0, 1)],
+       desc=HTM_DESC + 'rtm_rw_mutex: two real writers updating a data word pair (A++ ... B++) || a speculating reader that reads A and B inside its transaction: A==B, '
+            'reader sections never overlap a writer section, hand-over between the writers (thorough: further mixes, all threads may speculate)',
+       bounds=dict(HTM_B, threads=3)),
+  dict(name='rtm_rw_mutex_htm_2t', unit='rtmrw2_d', harness='h_rw.c', defines={'LOCK': 5, 'NT': 2, 'ROUNDS': 3, 'DATA': 1}, timeout=900,
+       scenarios=[TX(P(1, 0), 0, 1), TX(P(1, 0), 1, 0), TX(P(1, 1), 1, 0), TX(P(1, 0), 1, 1)],
+       scenarios_thorough=[TX(P(a, b), m0, m1) for a in R4 for b in R4 if a <= b for (m0, m1) in ((0, 1), (1, 0), (1, 1))],
+       desc=HTM_DESC + 'rtm_rw_mutex with the data word pair: real writer || speculating reader, speculating writer || real reader, speculating writer || real writer, both may speculate '
+            '(thorough: all pairs of reader/writer/try reader/try writer x who may speculate)', bounds=HTM_B),
+  dict(name='rtm_rw_mutex_htm_roles_2t', unit='rtmrw2', harness='h_rw.c', defines={'LOCK': 5, 'NT': 2, 'ROUNDS': 3}, timeout=1800, tiers=['thorough'],
+       scenarios=[TX(sc, 1, 1) for sc in roles2(range(6))] + [TX(P(2, 1), 1, 0), TX(P(2, 2), 1, 0), TX(P(3, 0), 1, 0), TX(P(0, 6), 0, 1)],
+       desc=HTM_DESC + 'rtm_rw_mutex, all role pairs incl. upgrade_to_writer / downgrade_to_reader inside a transaction (transacting reader -> transacting writer, or commit and real re-acquire)',
+       bounds=HTM_B),
+  dict(name='rtm_mutex_htm_2t', unit='rtm2_d', harness='h_mutex.c', defines={'LOCK': 6, 'NT': 2, 'ROUNDS': 3, 'DATA': 1}, timeout=900,
+       scenarios=[TX({'OP0': 0, 'OP1': 0}, 1, 0), TX({'OP0': 0, 'OP1': 1}, 1, 1)],
+       scenarios_thorough=[TX(o, m0, m1) for o in ops(2) for (m0, m1) in ((0, 1), (1, 0), (1, 1))],
+       desc=HTM_DESC + 'rtm_mutex: speculating holder || real holder (and both may speculate), every holder reads and increments a data word pair', bounds=HTM_B),
+  dict(name='rtm_mutex_htm_3t', unit='rtm3_d', harness='h_mutex.c', defines={'LOCK': 6, 'NT': 3, 'ROUNDS': 3, 'DATA': 1}, timeout=1800, tiers=['thorough'],
+       scenarios=[TX({'OP0': 0, 'OP1': 0, 'OP2': 0}, 0, 0, 1), TX({'OP0': 0, 'OP1': 0, 'OP2': 1}, 0, 1, 1), TX({'OP0': 0, 'OP1': 0, 'OP2': 0}, 1, 1, 1)],
+       desc=HTM_DESC + 'rtm_mutex, 3 threads', bounds=dict(HTM_B, threads=3)),
+]
 DEV = [
 ]
 if os.environ.get('C08_DEV'): HARNESSES += DEV
 MANIFEST = dict(
-  level_text='Bounded model checking of the real lock code (spin_mutex, queuing_mutex, spin_rw_mutex, queuing_rw_mutex incl. src/tbb/queuing_rw_mutex.cpp, and the '
-             'fallback paths of rtm_mutex / rtm_rw_mutex): for 2-3 threads, each performing one concrete lock operation sequence per query (lock / try / upgrade / '
+  level_text='Bounded model checking of the real lock code (spin_mutex, queuing_mutex, spin_rw_mutex, queuing_rw_mutex incl. src/tbb/queuing_rw_mutex.cpp, and '
+             'rtm_mutex / rtm_rw_mutex: fallback paths, and speculative paths with atomically committing transactions): for 2-3 threads, each performing one concrete lock operation sequence per query (lock / try / upgrade / '
              'downgrade / release), every interleaving at single-IR-memory-operation granularity with up to R free scheduling rounds + 2 forced rounds is decided '
              'by the SAT solver for: at most one writer, no reader together with a writer, truthful try-acquire, upgrade_to_writer()==true only if no other writer '
              'section ran in between, downgrade lets no writer in and admits a queued reader, FIFO grant order among conflicting queued requests of the queuing '
              'locks, absence of a lost grant/hand-off (two-round blocked-state oracle), and memory safety of the queue-node links.',
   level_note='Bounds per harness/scenario in evidence (threads, free rounds, wait-loop unroll K). Sequential consistency; x86-TSO store buffers (depth 2) for '
              'spin_mutex, queuing_mutex, spin_rw_mutex in the thorough tier, where the protected data is a plain word updated inside the critical section. '
-             'Speculative mutexes: _xbegin never starts a transaction (HTM behaviour outside). tbb::mutex / tbb::rw_mutex are checked in C02. '
+             'Speculative mutexes: fallback paths with _xbegin aborting, plus speculative paths under the model "a transaction commits atomically or has no effect" (*_htm_* harnesses; conflict granularity, capacity aborts, nesting outside). tbb::mutex / tbb::rw_mutex are checked in C02. '
              'Trusted: clang-14 IR, tools/ir2c.py, cbmc, the identity pointer<->integer hooks of h_rw.c.',
 )
 OUTSIDE = [
   'more than 3 threads; more than two acquire..release cycles per thread on one scoped_lock object (two cycles: *_reuse_* harnesses only; rtm locks: one cycle)',
-  'HTM (transactional) execution of rtm_mutex / rtm_rw_mutex: only the fallback path with _xbegin aborting / speculation disabled',
+  'HTM beyond the model "a transaction commits atomically or has no effect": conflict-detection granularity (false sharing, which accesses really conflict), capacity / interrupt / spurious aborts as a cause (their effect = abort-at-begin is covered), nested transactions, a debugger or syscall inside a transaction',
   'tbb::mutex and tbb::rw_mutex (futex based, checked in props/C02)',
   'queuing_rw_mutex: 3 threads with more than 2 free rounds, 2 threads with more than 3, wait-loop unroll K>=2 with 3 threads; TSO for queuing_rw_mutex and the rtm locks',
   'schedules needing more context switches than the stated rounds; paths that spin more than K iterations per slice continue in later rounds only',
@@ -157,11 +192,12 @@ OUTSIDE = [
 ]
 STUBS = [
   'sched_yield / pause: scheduling hints (no-op); a loop containing them is a busy-wait loop (thread parks and re-runs it in later rounds)',
-  '_xbegin: never starts a transaction, returns a solver-chosen abort status != _XBEGIN_STARTED; _xend/_xabort: must be unreachable',
+  '_xbegin: returns a solver-chosen abort status != _XBEGIN_STARTED, or (threads with TXt=1 in *_htm_* scenarios) starts a transaction; _xend commits; _xabort / sched_yield inside a transaction: assume(0) (that history is the abort-at-begin branch); the harness assumes that no context switch falls inside a transaction (atomic commit); TXt=0: always abort (fallback path only)',
   'governor::cpu_features.rtm_enabled: scenario input SPEC (0/1); the object is defined in the wrapper instead of misc.cpp',
   'vp_i2p / vp_p2i (queuing_rw_mutex): identity on pointer<->integer conversions, resolved against the finite set of queue-node addresses (+ tag bit 0)',
 ]
 ASSUMPTIONS = [
   'each thread issues the operations of its scenario role once; lock objects start unlocked (constructor state)',
   'a thread that calls _xbegin is making progress (the real retry loops are bounded by 10 aborts)',
+  'HTM: every committed transaction is serialised at one instant and an aborted one leaves no effect (Intel TSX architectural guarantee); only such histories are explored (under-approximation)',
 ]
